@@ -125,7 +125,11 @@ def step(ins, regs):
     if op == 'qr':
         return algopy.qr(regs[ins[1]])[ins[2]]
     if op == 'qr_full':
-        return algopy.qr_full(regs[ins[1]])[ins[2]]
+        a = regs[ins[1]]
+        if ins[2] == 0:
+            # only the first N columns of the full Q are uniquely defined (the rest is an arbitrary basis of the complement)
+            return algopy.qr_full(a)[0][:, :a.shape[1]]
+        return algopy.qr_full(a)[1]
     if op == 'chol_spd':      # cholesky of a by-construction SPD expression  a a^T + c I
         a = regs[ins[1]]
         n = a.shape[0]
@@ -297,7 +301,7 @@ def _magnitude_ok(v):
 # ---------------------------------------------------------------------------
 
 FAMILIES_ALL = ['un', 'un', 'special', 'unp', 'bin', 'bin', 'binc', 'binc', 'pow', 'neg', 'get', 'get', 'T', 'reshape',
-                'buf', 'set', 'set', 'sum', 'prod', 'trace', 'dot', 'dot', 'dotc', 'outer', 'inv', 'solve', 'det',
+                'buf', 'set', 'set', 'rmw', 'rmw', 'sum', 'prod', 'trace', 'dot', 'dot', 'dotc', 'outer', 'inv', 'solve', 'det',
                 'logdet', 'qr', 'chol', 'eigh', 'svd', 'lu', 'fft', 'tile', 'diag', 'symvec']
 
 
@@ -439,6 +443,9 @@ def programs(draw, n_inputs=(1, 2), max_len=8, families=None, out='any', K=4, in
     nin = draw(st.integers(n_inputs[0], n_inputs[1]))
     pts = []
     for i in range(nin):
+        if i == 0 and first in FIRST_INPUT:
+            pts.append(draw(_special_input(first, K, max_side)))
+            continue
         rank = draw(st.sampled_from(list(in_rank)))
         if rank == 2 and draw(st.booleans()):
             n = draw(st.integers(2, max_side))
@@ -462,6 +469,56 @@ def programs(draw, n_inputs=(1, 2), max_len=8, families=None, out='any', K=4, in
         S.try_emit(['un', 'sin', 0])
     outreg = _finish(draw, S, out)
     return {'pts': pts, 'prog': S.prog, 'out': outreg}
+
+
+FIRST_INPUT = {'inv': 'regular', 'det': 'regular', 'logdet': 'posdet', 'solve': 'regular', 'lu': 'regular', 'qr': 'fullrank',
+               'chol': 'square', 'eigh': 'gapsym', 'svd': 'svd', 'trace': 'matrix', 'T': 'matrix', 'diag': 'vecorsquare',
+               'symvec': 'square', 'outer': 'vector', 'dot': 'vecormat', 'dotc': 'vecormat', 'prod': 'vector', 'tile': 'vecormat',
+               'sum': 'vecormat', 'reshape': 'vecormat', 'get': 'vecormat', 'fft': 'vecormat'}
+
+
+@st.composite
+def _special_input(draw, first, K, max_side):
+    """probe points (K,)+shape for input 0 such that the leading operation is admissible at every probe point"""
+    kind = FIRST_INPUT[first]
+    elems = st.one_of(gen.nice_floats(-2.0, 2.0), gen.dyadic_elements(8, 4))
+    n = draw(st.integers(2, max_side))
+    if kind in ('regular', 'posdet'):
+        mats = []
+        for k in range(K):
+            m = draw(st.one_of(gen.well_conditioned(n), gen.pivot_forcing(n)))
+            if kind == 'posdet' and np.linalg.det(m) < 0:
+                m = m.copy()
+                m[0] *= -1
+            mats.append(m)
+        return np.array(mats)
+    if kind == 'fullrank':
+        m_ = draw(st.integers(1, max_side))
+        return np.array([draw(gen.well_conditioned(m_, n)) for k in range(K)])
+    if kind == 'svd':
+        m_ = draw(st.integers(1, n))
+        tall = draw(st.integers(0, 5)) == 0
+        return np.array([draw(gen.well_conditioned(n, m_) if tall else gen.well_conditioned(m_, n)) for k in range(K)])
+    if kind == 'gapsym':
+        mats = []
+        for k in range(K):
+            sym = draw(gen.symmetric_distinct(n, gap=0.4))
+            a = draw(gen.float_array((n, n), elems, sparse=False))
+            mats.append(0.5 * sym + 0.5 * (a - a.T))      # m + m^T == sym
+        return np.array(mats)
+    if kind == 'square':
+        return draw(gen.float_array((K, n, n), elems, sparse=False))
+    if kind == 'matrix':
+        m_ = draw(st.integers(1, max_side))
+        return draw(gen.float_array((K, m_, n), elems, sparse=False))
+    if kind == 'vector':
+        return draw(gen.float_array((K, n), elems, sparse=False))
+    if kind == 'vecorsquare':
+        shape = draw(st.sampled_from([(n,), (n, n)]))
+        return draw(gen.float_array((K,) + shape, elems, sparse=False))
+    m_ = draw(st.integers(1, max_side))
+    shape = draw(st.sampled_from([(n,), (m_, n), (n, m_)]))
+    return draw(gen.float_array((K,) + shape, elems, sparse=False))
 
 
 def _pick(draw, S, pred):
@@ -520,10 +577,14 @@ def _emit_family(draw, S, fam, allow_set_broadcast=True, allow_ndim_dot=False, a
         side = draw(st.sampled_from(['l', 'r']))
         return S.try_emit(['binc', opn, a, c, side])
     if fam == 'pow':
-        a = _pick(draw, S, real)
+        r = draw(st.sampled_from([2, 3, -1, -2, -3, 0.5, 1.5, -0.5, 2.0, 0, 1, 4]))
+        a = _pick(draw, S, lambda q: real(q) and all(precond(['pow', q, r], S.regs[k]) for k in range(S.K)))
         if a is None:
-            return False
-        r = draw(st.sampled_from([2, 3, -1, -2, 0.5, 1.5, -0.5, 2.0, 0, 1, 4]))
+            # make an admissible operand: 0.5 + square(reg) is >= 0.5 everywhere
+            b = _pick(draw, S, real)
+            if b is None or not S.try_emit(['un', 'square', b]) or not S.try_emit(['binc', 'add', S.nreg() - 1, 0.5, 'r']):
+                return False
+            a = S.nreg() - 1
         return S.try_emit(['pow', a, r])
     if fam == 'neg':
         a = _pick(draw, S, lambda r: True)
@@ -568,6 +629,30 @@ def _emit_family(draw, S, fam, allow_set_broadcast=True, allow_ndim_dot=False, a
         if b is None:
             return _emit_family(draw, S, 'buf', allow_set_broadcast, allow_ndim_dot, allow_ones)
         return _emit_set(draw, S, b, allow_set_broadcast)
+    if fam == 'rmw':
+        # read an entry/view of a buffer, transform it, write it back to the same place (rewrite after read)
+        b = _pick(draw, S, lambda r: r in S.bufroot and S.ndim(r) >= 1)
+        if b is None:
+            if not _emit_family(draw, S, 'buf', allow_set_broadcast, allow_ndim_dot, allow_ones):
+                return False
+            b = S.nreg() - 1
+            if b not in S.bufroot or S.ndim(b) < 1:
+                return False
+        idx = _basic_index(draw, S.shape(b))
+        if not S.try_emit(['get', b, idx]):
+            return False
+        t = S.nreg() - 1
+        f = draw(st.sampled_from(['sin', 'cos', 'square', 'exp']))
+        if not S.try_emit(['un', f, t]):
+            return False
+        u = S.nreg() - 1
+        if draw(st.booleans()):
+            o = _pick(draw, S, lambda r: real(r) and S.shape(r) in ((), S.shape(u)) and S.bufroot.get(r) != S.bufroot[b])
+            if o is not None and S.try_emit(['bin', 'mul', u, o]):
+                u = S.nreg() - 1
+        if S.shape(u) != np.shape(S.regs[0][b][idx]):
+            return False
+        return S.try_emit(['set', b, idx, u])
     if fam == 'sum':
         a = _pick(draw, S, lambda r: S.ndim(r) >= 1 and not S.cplx(r))
         if a is None:
@@ -755,21 +840,34 @@ def _finish(draw, S, out):
 
 def features(case):
     prog = case['prog']
+    nin = len(case['pts'])
     f = set()
-    read = set()
-    written = set()
-    for ins in prog:
+    root = {}          # register -> root buffer register
+    readroots = set()  # buffers that have been read (directly or through a view)
+    for n, ins in enumerate(prog):
         op = ins[0]
+        reg = nin + n
         if op in ('zeros', 'ones'):
             f.add('buffer')
+            root[reg] = reg
         if op in ('set', 'setc'):
             f.add('write')
-            key = (ins[1], repr(ins[2]))
-            if key in written or ins[1] in read:
+            r = root.get(ins[1])
+            root[reg] = r
+            if r in readroots:
                 f.add('rewrite-after-read')
-            written.add(key)
-        if op == 'get':
-            read.add(ins[1])
+            if ins[1] != r and prog[ins[1] - nin][0] in ('get', 'T'):
+                f.add('view-write')
+            if op == 'set' and root.get(ins[3]) is None:
+                pass
+        else:
+            for a in ins[1:]:
+                if isinstance(a, int) and not isinstance(a, bool) and a in root and op not in ('zeros', 'ones', 'pow', 'sum', 'tile'):
+                    readroots.add(root[a])
+            if op in ('sum',) and ins[1] in root:
+                readroots.add(root[ins[1]])
+        if op in ('get', 'T') and ins[1] in root:
+            root[reg] = root[ins[1]]
         if op == 'binc':
             f.add('const-left' if ins[4] == 'l' else 'const-right')
             if isinstance(ins[3], np.ndarray):
